@@ -36,7 +36,9 @@ RULE = (
     "assignment or clone().set_params and used with the weights the rule in force needs - judged with the get_params snapshot taken "
     "just before the call; equivalent spellings of spacing / shape / region / flags (Python and numpy integers, 0-d arrays, lists, "
     "ndarrays, np.bool_, 1/0) with falsy-but-valid values (extra coordinate 0 everywhere, weights exactly 1); large-offset data with "
-    "|mean| = 1e4..2e6 spreads for all three rules) or one variance_to_weights call (tol as Python/numpy int or float, np.float32, 0-d "
+    "|mean| = 1e4..2e6 spreads for all three rules; calls with 130 000 / 230 000 / 262 145 points - unweighted over thousands of blocks with "
+    "singletons, weighted / uncertainty over a few hundred - with the variance convention required to be the same for the whole run) "
+    "or one variance_to_weights call (2-D and 3-D variances spelled as nested lists or lists of arrays = ONE array, tuples = components; (tol as Python/numpy int or float, np.float32, 0-d "
     "array; dtype as str / type / np.dtype; bare Python and numpy scalars, all-zero variances; arrays of 1..40 variances 10^[-6,6] with zeros, 1e-300, NaNs, negatives, values "
     "at / beside tol, 1-D/2-D/0-d, tuples of 1..3 arrays, lists, Series, read-only, float32/int input, tol in {default,0,1e-3,10}, "
     "dtype float64/float32). Non-trivial BlockMean case = at least 2 blocks with >= 2 members whose rule quantity (variance, sum of "
@@ -49,7 +51,8 @@ ASSUMPTIONS = [
     "a block variance carries an absolute error bound 64*eps*n*(max|d|*sigma + sigma^2) (the conditioning of the shift-invariant variance, "
     "what a two-pass algorithm achieves): weights are compared with the propagated relative tolerance, "
     "components whose tolerance exceeds 1e-3 or whose variance lies within that bound of the 1e-15 cutoff are skipped (counted)",
-    "the unweighted block variance may follow ddof=0 or ddof=1 provided one convention explains every block of a component",
+    "the unweighted block variance may follow ddof=0 or ddof=1 provided one convention explains every block of a component AND the same "
+    "convention explains every decidable result of the run (per worker process): it may not depend on the size of the input",
     "variances at or below variance_to_weights' documented default tol=1e-15 (single-member and constant blocks) get weight 1",
     "variance_to_weights: values within 1e-9*tol of tol but not equal to it are either-way (array skipped); +-inf is not judged",
     "the reference works on float64(values); a component handed over as float32 uses the float32 epsilon in its bounds and is called "
@@ -66,7 +69,7 @@ FLOORS = {
         "eval:uncertainty_without_weights_rejected": 17, "eval:v2w_values": 2200, "eval:v2w_input_unmodified": 2000,
         "eval:v2w_returns": 2000, "eval:series_backing_store_unmodified": 32, "distinct_nontrivial": 1400,
         "class:rule:variance": 240, "class:rule:uncertainty": 230, "class:rule:weighted_variance": 250,
-        "v2w_class:readonly": 1000, "v2w_class:has_nan": 470, "class:data_dtype_present:int16": 66,
+        "v2w_class:readonly": 1000, "v2w_class:has_nan": 460, "class:data_dtype_present:int16": 66,
         "class:data_dtype_present:int32": 81, "class:data_dtype_present:int64": 79, "class:data_dtype_present:float32": 110,
         "block_weight_rule_judged:data_dtype:int16": 92, "block_weight_rule_judged:data_dtype:int32": 100,
         "block_weight_rule_judged:data_dtype:int64": 96, "block_weight_rule_judged:data_dtype:float32": 100,
@@ -103,11 +106,15 @@ FLOORS = {
         "block_weight_rule_judged:large_offset_data:rule:variance": 19,
         "block_weight_rule_judged:large_offset_data:rule:uncertainty": 16,
         "block_weight_rule_judged:large_offset_data:rule:weighted_variance": 20, "v2w_class:all_variances_exactly_0": 140,
-        "v2w_class:bare_scalar:float": 18, "v2w_class:bare_scalar:int": 9, "v2w_class:bare_scalar:np.float64": 8,
+        "v2w_class:bare_scalar:float": 18, "v2w_class:bare_scalar:int": 7, "v2w_class:bare_scalar:np.float64": 8,
         "v2w_class:tol_spelled_as:int": 35, "v2w_class:tol_spelled_as:np.int64": 35, "v2w_class:tol_spelled_as:np.float32": 68,
         "v2w_class:tol_spelled_as:np.float64": 100, "v2w_class:tol_spelled_as:ndarray0d(float64)": 100,
-        "v2w_class:dtype_spelled_as:type:float32": 18, "v2w_class:dtype_spelled_as:np.dtype(float32)": 19,
+        "v2w_class:dtype_spelled_as:type:float32": 18, "v2w_class:dtype_spelled_as:np.dtype(float32)": 18,
         "v2w_class:dtype_spelled_as:'float32'": 14, "v2w_class:dtype_spelled_as:type:float": 15,
+        "class:more_than_100000_points": 2, "class:more_than_100000_points:rule:variance": 1,
+        "eval:variance_convention_consistent": 300, "blocks_judged_in_calls_with_more_than_100000_points": 1300,
+        "single_member_blocks_in_calls_with_more_than_100000_points": 85, "v2w_class:list_of_rows_as_list(2-D)": 20,
+        "v2w_class:list_of_rows_as_array(2-D)": 23, "v2w_class:list_of_rows_as_list(3-D)": 4, "v2w_class:container:list": 110,
     },
     "thorough": {
         "eval:blockmean_returns": 11600, "eval:blockmean_layout": 11600, "eval:labels_vs_reference_geometry": 11600,
@@ -116,7 +123,7 @@ FLOORS = {
         "eval:uncertainty_without_weights_rejected": 180, "eval:v2w_values": 33000, "eval:v2w_input_unmodified": 31300,
         "eval:v2w_returns": 31300, "eval:series_backing_store_unmodified": 240, "distinct_nontrivial": 22400,
         "class:rule:variance": 3900, "class:rule:uncertainty": 3600, "class:rule:weighted_variance": 3900,
-        "v2w_class:readonly": 16200, "v2w_class:has_nan": 7000, "class:data_dtype_present:int16": 1200,
+        "v2w_class:readonly": 15900, "v2w_class:has_nan": 7000, "class:data_dtype_present:int16": 1200,
         "class:data_dtype_present:int32": 1300, "class:data_dtype_present:int64": 1300, "class:data_dtype_present:float32": 1900,
         "block_weight_rule_judged:data_dtype:int16": 1500, "block_weight_rule_judged:data_dtype:int32": 1700,
         "block_weight_rule_judged:data_dtype:int64": 1600, "block_weight_rule_judged:data_dtype:float32": 1800,
@@ -154,11 +161,16 @@ FLOORS = {
         "block_weight_rule_judged:large_offset_data:rule:uncertainty": 300,
         "block_weight_rule_judged:large_offset_data:rule:weighted_variance": 360, "v2w_class:all_variances_exactly_0": 2200,
         "v2w_class:bare_scalar:float": 310, "v2w_class:bare_scalar:int": 150, "v2w_class:bare_scalar:np.float64": 150,
-        "v2w_class:tol_spelled_as:int": 600, "v2w_class:tol_spelled_as:np.int64": 600,
-        "v2w_class:tol_spelled_as:np.float32": 1000, "v2w_class:tol_spelled_as:np.float64": 1700,
-        "v2w_class:tol_spelled_as:ndarray0d(float64)": 1600, "v2w_class:dtype_spelled_as:type:float32": 330,
+        "v2w_class:tol_spelled_as:int": 600, "v2w_class:tol_spelled_as:np.int64": 590,
+        "v2w_class:tol_spelled_as:np.float32": 1000, "v2w_class:tol_spelled_as:np.float64": 1600,
+        "v2w_class:tol_spelled_as:ndarray0d(float64)": 1600, "v2w_class:dtype_spelled_as:type:float32": 300,
         "v2w_class:dtype_spelled_as:np.dtype(float32)": 310, "v2w_class:dtype_spelled_as:'float32'": 310,
-        "v2w_class:dtype_spelled_as:type:float": 250,
+        "v2w_class:dtype_spelled_as:type:float": 250, "class:more_than_100000_points": 11,
+        "class:more_than_100000_points:rule:variance": 3, "eval:variance_convention_consistent": 4800,
+        "blocks_judged_in_calls_with_more_than_100000_points": 36500,
+        "single_member_blocks_in_calls_with_more_than_100000_points": 12500, "v2w_class:list_of_rows_as_list(2-D)": 380,
+        "v2w_class:list_of_rows_as_array(2-D)": 420, "v2w_class:list_of_rows_as_list(3-D)": 120,
+        "v2w_class:container:list": 1900,
     },
 }
 JOBS = {"quick": 1, "thorough": 16}
@@ -170,8 +182,8 @@ EPS = blk.EPS
 
 def plan(tier):
     if tier == "quick":
-        return collections.OrderedDict(blockmean=105, plateau=26, series=30, reject=8, nested=6, v2w=45, v2w_nested_readonly=8, reuse=20, inplace=12, reconfigure=30, spellings=36, large_offset=18)
-    return collections.OrderedDict(blockmean=1580, plateau=390, series=450, reject=60, nested=80, v2w=680, v2w_nested_readonly=60, reuse=300, inplace=180, reconfigure=450, spellings=540, large_offset=270)
+        return collections.OrderedDict(blockmean=105, plateau=26, series=30, reject=8, nested=6, v2w=45, v2w_nested_readonly=8, reuse=20, inplace=12, reconfigure=30, spellings=36, large_offset=18, large=2)
+    return collections.OrderedDict(blockmean=1580, plateau=390, series=450, reject=60, nested=80, v2w=680, v2w_nested_readonly=60, reuse=300, inplace=180, reconfigure=450, spellings=540, large_offset=270, large=16)
 
 
 # ----------------------------------------------------------------------
@@ -420,6 +432,9 @@ def install(tap, run):
         for arr in arrays:
             if isinstance(arr, (int, float, np.generic)):
                 classes.add("bare_scalar:" + blk.describe(arr))
+            if isinstance(arr, list) and arr and isinstance(arr[0], (list, np.ndarray)):
+                kinds = set("array" if isinstance(row, np.ndarray) else "list" for row in arr)
+                classes.add("list_of_%s(%d-D)" % ("rows_as_" + "_and_".join(sorted(kinds)), np.ndim(np.asarray(arr))))
             try:
                 flat = np.atleast_1d(np.array(np.asarray(arr), dtype="float64"))
                 if flat.size and not np.any(flat != 0):
@@ -480,6 +495,23 @@ def install(tap, run):
         return {"digest": core.digest([list(a["coordinates"]) if isinstance(a["coordinates"], (tuple, list)) else a["coordinates"], a["data"], a["weights"]]),
                 "params": blk.snapshot_params(a["self"])}
 
+    conventions_seen = {}  # convention that alone explains a result -> description of the first call that showed it
+
+    def convention_observed(convention, call, witness):
+        """
+        ddof=0 or ddof=1 is accepted, but it has to be ONE convention for the whole run: a result that only the sample variance
+        explains next to results that only the population variance explains (e.g. above a size threshold) is a refutation.
+        """
+        run.evaluated("variance_convention_consistent")
+        here = "%d points in %d occupied blocks" % (call.npoints, len(call.groups))
+        conventions_seen.setdefault(convention, here)
+        other = "ddof1" if convention == "ddof0" else "ddof0"
+        if other in conventions_seen:
+            run.violation("variance_convention_consistent",
+                          "this result (%s) is explained only by %s, an earlier one of the same run (%s) only by %s: the unweighted block "
+                          "variance does not follow one convention" % (here, convention, conventions_seen[other], other),
+                          witness(convention_here=convention, convention_before=other), key="convention:" + convention + "-after-" + other)
+
     def post_filter(ev):
         a = ev.args
         est = a["self"]
@@ -524,6 +556,10 @@ def install(tap, run):
         call = blk.Call(ev, params)
         rule = "variance" if not weighted else ("uncertainty" if uncertainty else "weighted_variance")
         run.count("class:rule:" + rule)
+        if call.npoints > 100000:
+            run.count("class:more_than_100000_points:rule:" + rule)
+            run.count("blocks_judged_in_calls_with_more_than_100000_points", len(call.groups))
+            run.count("single_member_blocks_in_calls_with_more_than_100000_points", sum(1 for _, m in call.groups if m.size == 1))
         for cls in call.classes():
             run.count("class:" + cls)
         witness = call.witness
@@ -611,6 +647,10 @@ def install(tap, run):
                                       "members_per_block": [int(m.size) for _, m in call.groups],
                                       "mean_observed": means[c], "weights_observed": got, "weights_reference": verdict["expected"],
                                       "rule_or_convention_that_explains_all_blocks": verdict["convention"]})
+                if rule == "variance" and verdict["convention"] in ("ddof0", "ddof1"):
+                    convention_observed(verdict["convention"], call, witness)
+                    if call.npoints > 100000:
+                        run.count("variance_convention_decided_on_more_than_100000_points:" + verdict["convention"])
                 if rule == "variance":
                     run.count("variance_convention:" + ("undecidable(ddof0 and ddof1 agree)" if "+" in verdict["convention"] else verdict["convention"]))
         if informative:
@@ -845,6 +885,36 @@ def _reconfigured(run, rng, verde):
     return {"constructed_with": kwargs, "used_before_the_change": used, "how": how, "changed_to": changes, "rule_in_force": rule}
 
 
+def _large_call(run, rng, verde, index):
+    """
+    More than 100 000 points in one BlockMean.filter call. Without weights: many blocks of very different populations, singletons
+    included - the block variances must follow the same (population) convention as for small inputs, which the run-wide
+    'variance_convention_consistent' monitor decides. With weights (weighted variance / uncertainty): a few hundred blocks.
+    """
+    quick = run.tier == "quick"
+    rule = "variance" if index % 2 == 0 else str(rng.choice(["weighted_variance", "uncertainty"]))
+    n = blk.LARGE_COUNTS[(index // 2 + run.seed) % 3] if not quick else blk.LARGE_COUNTS[0 if index == 0 else 1 + (run.seed % 2)]
+    east, north = blk.large_cloud(rng, n)
+    if rule == "variance":
+        n_blocks = int(rng.integers(2500, 6000)) if quick else int(rng.integers(6000, 40000))
+    else:
+        n_blocks = int(rng.integers(60, 400))
+    kwargs = blk.large_blocks(rng, east, north, n_blocks)
+    ncomp = 1 if quick else int(rng.choice([1, 2]))
+    data = [blk.large_field(rng, east, north, amplitude=float(10 ** rng.uniform(-1, 3))) for _ in range(ncomp)]
+    weights = None
+    if rule != "variance":
+        weights = [10 ** rng.uniform(-2, 2, n) for _ in range(ncomp)]
+        if rule == "uncertainty":
+            kwargs["uncertainty"] = True
+    with warnings.catch_warnings():
+        warnings.simplefilter("ignore")
+        result = verde.BlockMean(**kwargs).filter((east, north), data[0] if ncomp == 1 else tuple(data),
+                                                  None if weights is None else (weights[0] if ncomp == 1 else tuple(weights)))
+    run.sample("more_than_100000_points:" + rule, {"points": n, "rule": rule, "kwargs": kwargs, "blocks_with_data": int(np.size(result[0][0])),
+                                                   "last_points": {"easting": east[-3:], "northing": north[-3:], "data": data[0][-3:]}})
+
+
 def _variance_array(rng, size=None):
     if size is None:
         size = int(rng.integers(1, 41))
@@ -869,8 +939,20 @@ def _wrap_variance(rng, var):
     import pandas as pd
 
     kind = str(rng.choice(["1d", "readonly", "2d", "fortran", "strided", "series", "list", "float32", "int", "0d"],
-                          p=[.2, .18, .12, .06, .08, .1, .07, .07, .04, .08]))
+                          p=[.18, .16, .11, .05, .07, .09, .15, .07, .04, .08]))
     if kind == "list":
+        pick = rng.random()
+        if var.size >= 4 and pick < 0.55:
+            # two (or three) dimensions spelled with lists: ONE array normalised by its global minimum, unlike a tuple (= components)
+            rows = 2 if var.size % 2 == 0 else (3 if var.size % 3 == 0 else 1)
+            grid = var[: (var.size // rows) * rows].reshape(rows, -1)
+            if pick < 0.2:
+                return grid.tolist(), "nested_list"
+            if pick < 0.4:
+                return [row.copy() for row in grid], "list_of_arrays"
+            if pick < 0.48:
+                return [row.tolist() if k % 2 else row.copy() for k, row in enumerate(grid)], "list_of_lists_and_arrays"
+            return grid.reshape(rows, 1, -1).tolist(), "nested_list_3d"
         return [float(v) for v in var], kind
     if kind == "float32":
         return var.astype("float32"), kind
@@ -934,7 +1016,9 @@ def run_case(run, tap, stream, index, rng):
     import pandas as pd
     import verde
 
-    if stream == "spellings":
+    if stream == "large":
+        _large_call(run, rng, verde, index)
+    elif stream == "spellings":
         for _ in range(CALLS_PER_CASE):
             _one_call(run, rng, verde, spelled=True, layout=str(rng.choice(["1d", "1d", "2d", "series", "readonly"])), npoints=0)
     elif stream == "large_offset":
